@@ -52,8 +52,24 @@ def propChecksGuards : List String := [
   "return rules.APPROVED"
 ]
 
-/-- OnSign (rules/standard/sign.go) is outside the translatable fragment; Dirk/Props/KernelsEq.lean cannot build. -/
-def kernelUntranslatable_onSignGen : String :=
-  "unsupported statement at OnSign line 36: switch e2types.DomainType(req.Domain) { case e2types.DomainBeaconAttester: log.Warn().Msg(\"Not signing beacon attestation request with generic signer\") return rules.DENIED case e2types.DomainBeaconProposer: log.Warn().Msg(\"Not signing beacon proposal request with generic signer\") return rules.DENIED case e2types.DomainVoluntaryExit: if metadata.IP == \"\" { log.Warn().Msg(\"Not signing voluntary exit request from unknown source\") return rules.DENIED } validIP := false for i := range s.adminIPs { if metadata.IP == s.adminIPs[i] { validIP = true break } } if !validIP { log.Warn().Str(\"request_ip\", metadata.IP).Msg(\"Not signing voluntary exit request from unapproved IP address\") return rules.DENIED } default: }"
+/-- `OnSign` (rules/standard/sign.go), translated statement by statement; model counterpart: `Dirk.onSign`. -/
+def onSignGen (metadataNil : Bool) (adminIPs : List String) (ip : String) (domain : Bytes) : Verdict :=
+  if metadataNil = true then .failed
+  else if prefix4 domain = domAttester then .denied
+  else if prefix4 domain = domProposer then .denied
+  else if (prefix4 domain = domExit) ∧ (ip = "") then .denied
+  else if (prefix4 domain = domExit) ∧ (¬ (adminIPs.contains ip)) then .denied
+  else .approved
+
+/-- the guards of `OnSign`, as written in the source, in order -/
+def onSignGuards : List String := [
+  "metadata == nil => return rules.FAILED",
+  "bytes.Equal(req.Domain[0:4], e2types.DomainBeaconAttester[:]) => return rules.DENIED",
+  "bytes.Equal(req.Domain[0:4], e2types.DomainBeaconProposer[:]) => return rules.DENIED",
+  "bytes.Equal(req.Domain[0:4], e2types.DomainVoluntaryExit[:]) && metadata.IP == \"\" => return rules.DENIED",
+  "validIP := (metadata.IP ∈ s.adminIPs)  [for-range membership loop]",
+  "bytes.Equal(req.Domain[0:4], e2types.DomainVoluntaryExit[:]) && !validIP => return rules.DENIED",
+  "return rules.APPROVED"
+]
 
 end Dirk.Gen
